@@ -147,7 +147,12 @@ func (h *HarnessRun) runPath(s *Solver, wi workItem) (res PathResult) {
 					res.Inconcl++
 				}
 			default:
-				panic(r)
+				// a Go run-time error inside the engine itself (a value shape it does not handle): no verdict for this path
+				if os.Getenv("VERIF_ENGINE_PANIC") != "" {
+					panic(r)
+				}
+				res.Outcome = "unsupported"
+				res.Detail = fmt.Sprintf("engine error: %v", r) + x.where()
 			}
 		} else {
 			res.Outcome = "ok"
